@@ -48,6 +48,12 @@ def run(chk):
     for i in range(n // 5):
         doc = gen.sawtooth_family(rng)
         pool.append(("sawtooth:%d" % i, doc, demes.Graph.fromdict(doc)))
+    for i in range(max(10, n // 10)):
+        doc = gen.merge_family(rng)
+        try:
+            pool.append(("merge:%d" % i, doc, demes.Graph.fromdict(doc)))
+        except Exception:
+            chk.count("family_rejected")
     fixed_N0 = {}
     for i in range(max(10, n // 10)):
         doc, n0_ = gen.sister_family(rng)
